@@ -78,6 +78,7 @@ class Builder:
         self.runs: dict[str, Run] = {}
         self.store: Term | None = None
         self.name_attrs: set[str] = set()
+        self.cursor = Cursor(self)
 
     def run(self, name: str) -> Run:
         if name not in self.runs:
@@ -345,6 +346,78 @@ def r1_fixture_selfcheck() -> str:
 # --------------------------------------------------------------------------- R3 / R4: LayeredArchitecture
 
 
+# --------------------------------------------------------------------------- cursor attributes (fallback of the pending-layer rules)
+
+
+class Cursor:
+    """An attribute F of the builder that `layer(name)` sets to `name` ("the layer being defined").
+
+    Proves the invariant J(F): *every layer whose stored definition is empty is named by self.F* by induction over the public
+    methods: on every path that returns normally, (1) every entry written with a possibly empty value is written under the final
+    value of F, and (2) the layers that were pending before (all named by the old F, by J) are still covered: F is unchanged, or
+    no layer was pending (guard), or the old F's entry was overwritten with a provably non-empty value.
+    """
+
+    def __init__(self, b: Builder) -> None:
+        self.b = b
+        self.cache: dict[str, tuple[bool, str, str]] = {}
+
+    def candidates(self) -> list[str]:
+        r = self.b.run("layer")
+        name = ("param", r.fi.param_names[1])
+        return sorted({e.data["attr"] for e in r.of("setattr") if e.data["obj"] == SELF and e.data["value"] == name})
+
+    def methods(self) -> list[str]:
+        la = self.b.la
+        return [n for n, m in la.methods.items() if not m.is_abstract and not m.is_property and (not n.startswith("_") or n in ("__setitem__", "__delitem__")) and n != "__init__"]
+
+    @staticmethod
+    def nonempty(v: Term) -> bool:
+        return v[0] in ("list", "tuple", "set") and len(v[1]) >= 1
+
+    def prove(self, f: str) -> tuple[bool, str, str]:
+        """(holds, why not, where)."""
+        if f in self.cache:
+            return self.cache[f]
+        b = self.b
+        cur = ("attr", SELF, f)
+        enc = Enc(b.canon)
+        out = (True, "", "")
+        for name in self.methods():
+            r = b.run(name)
+            if r.of("opaque") or r.notes:
+                if b.store_events(r) or any(e.data["attr"] == f and e.data["obj"] == SELF for e in r.of("setattr")):
+                    out = (False, f"{name} could not be followed completely", "")
+                    break
+                continue
+            pend = b.pending_terms(r)
+            for pc, _v, heap in r.returns:
+                pcf = enc.pc(pc)
+                final = heap.get((SELF, f), cur)
+                writes = [e for e in b.store_events(r) if satisfiable(f_and([enc.pc(e.pc), pcf]))]
+                for e in writes:
+                    if not self.nonempty(e.data["value"]) and e.data["key"] != final:
+                        what = "the marker of a new layer" if e.data["value"] in (("list", ()), ("tuple", ())) else f"a possibly empty definition (`{show(e.data['value'])[:60]}`)"
+                        out = (False, f"{name} writes {what} under `{show(e.data['key'])[:50]}` but leaves the cursor `{f}` at `{show(final)[:40]}`: the layer has no modules and is no longer the one the cursor names", e.where)
+                        break
+                if not out[0]:
+                    break
+                if final != cur:
+                    covered = (
+                        (pend and implies(pcf, enc.len_atom(pend[0], 0)))
+                        or implies(pcf, enc.truth(("cmp", "Is", cur, NONE_T)))
+                        or any(e.data["key"] == cur and self.nonempty(e.data["value"]) for e in writes)
+                    )
+                    if not covered:
+                        out = (False, f"{name} moves the cursor `{f}` to `{show(final)[:40]}` although the layer it named may still be without modules", f"{r.fi.relpath}:{r.fi.node.lineno}")
+                        break
+            if not out[0]:
+                break
+        self.cache[f] = out
+        return out
+
+
+
 def check_rejections(res: Result, r: Run, enc: Enc, accept, what: str, also=None) -> None:
     """Every call that returns normally satisfies the acceptance condition, and what is raised otherwise is a configuration error."""
     m = r.fi
@@ -374,13 +447,21 @@ def check_layer(b: Builder, res: Result) -> None:
             res.undecide("C16.R3", K(m, "opens the layer"), "the new layer is written inside a loop that could not be summarised", e.where)
             continue
         ok1 = no_pending is not None and implies(pcf, no_pending)
+        flag = None if ok1 else next((f for f in b.cursor.candidates() if implies(pcf, enc.truth(("cmp", "Is", ("attr", SELF, f), NONE_T)))), None)
+        if flag is not None:
+            holds, why, where_ = b.cursor.prove(flag)
+            if holds:
+                res.undecide("C16.R3", K(m, "[no pending layer]"), f"layer() is guarded by the cursor `{flag}` instead of the stored definitions; every pending layer is named by it, but that it is reset only once the layer has modules is not established", e.where)
+            else:
+                verdict(res, r, "C16.R3", K(m, "[no pending layer]"), False, f"a new layer can be opened while another layer still has no modules: layer() trusts the cursor `{flag}`, but {why}", where_ or e.where, kind="dominance")
         if ok1:
             d1 = "a new layer is opened only when no layer is waiting for its modules"
         elif no_pending is None:
             d1 = f"a new layer can be opened while another layer still has no modules: the guard `{show_pc(e.pc)[:140]}` does not consult the stored definitions (a layer counts as pending while its stored module sequence is empty)"
         else:
             d1 = f"a new layer can be opened while another layer still has no modules (guard: `{show_pc(e.pc)[:140]}`)"
-        verdict(res, r, "C16.R3", K(m, "[no pending layer]"), ok1, d1, e.where, kind="dominance")
+        if flag is None:
+            verdict(res, r, "C16.R3", K(m, "[no pending layer]"), ok1, d1, e.where, kind="dominance")
         ok2 = implies(pcf, f_not(in_store))
         verdict(res, r, "C16.R3", K(m, "[unique name]"), ok2, "a layer name can be defined once" if ok2 else f"a layer name can be defined twice: the second definition replaces the first (guard: `{show_pc(e.pc)[:140]}`)", e.where, kind="dominance")
         v = e.data["value"]
@@ -421,7 +502,17 @@ def check_modules_method(b: Builder, res: Result, mname: str, union_param: bool)
         )
         key = e.data["key"]
         ok = b.single_pending(key) and e.data["how"] in ("[]=", "update")  # (setdefault would keep the empty marker)
-        verdict(res, r, "C16.R4", K(m, "[stored under the pending layer]"), ok, "stored under the single pending layer" if ok else f"the modules are stored under `{show(key)[:80]}`, not under the one layer that is waiting for its modules", e.where, kind="structural")
+        if not ok and key[0] == "attr" and key[1] == SELF and key[2] in b.cursor.candidates() and e.data["how"] in ("[]=", "update"):
+            holds, why, where_ = b.cursor.prove(key[2])
+            if holds and one is not None and implies(pcf, one):
+                verdict(res, r, "C16.R4", K(m, "[stored under the pending layer]"), True, f"stored under the cursor `{key[2]}`: every pending layer is named by it (invariant over all public methods) and exactly one layer is pending", e.where, kind="structural")
+            elif not holds:
+                verdict(res, r, "C16.R4", K(m, "[stored under the pending layer]"), False, f"the modules are stored under the cursor `{key[2]}`, which need not name the pending layer: {why}", where_ or e.where, kind="structural")
+            else:
+                res.undecide("C16.R4", K(m, "[stored under the pending layer]"), f"the modules are stored under the cursor `{key[2]}`; that it names the one pending layer is not established without a guard on the stored definitions", e.where)
+            ok = None
+        if ok is not None:
+            verdict(res, r, "C16.R4", K(m, "[stored under the pending layer]"), ok, "stored under the single pending layer" if ok else f"the modules are stored under `{show(key)[:80]}`, not under the one layer that is waiting for its modules", e.where, kind="structural")
         v = e.data["value"]
         if union_param:
             check_dup_guard(b, res, r, m, e, p, enc)
